@@ -33,8 +33,9 @@ func RunProgCase(c *ProgCase, st Style) {
 	if c.Prog.IJ["t"] == "map" {
 		ij = ToDataMap(c.Prog.IJ["v"])
 	}
+	SetCurrent(fmt.Sprint(c.Files))
 	res := comp.RenderWatch(c.Prog.Entry, ToDataMap(c.Prog.Data), ij, 10*time.Second)
-	c.Obs = Obs{Err: res.Err != nil, Out: res.Out, ErrText: res.ErrS(), Panicked: res.Panicked}
+	c.Obs = Obs{Err: res.Err != nil, Out: res.Out, ErrText: res.ErrS(), Panicked: res.Panicked, Hung: res.Hung}
 }
 
 var reBad2 = regexp.MustCompile(`^<<"BAD", (\d+), "(\w+)", (".*")>>$`)
